@@ -354,7 +354,10 @@ Definition probe_rec_ok (c : scase) (e : emod) (emitted : list fop) (r : srec) :
           && tag_ok t (r_tag r)
           && match find_run z (length ops) emitted with
              | Some run => fops_eqb run (r_body r)                                     (* the operators the encoder emitted for the probe *)
-             | None => true                                                            (* the probe is not emitted *)
+             (* a record for code that is NOT in the encoding is tolerated only for the two modes that are reported when they
+                are planned and whose place of emission can be removed later (semantic-after 3, block-exit 5): a record for
+                before / after / alternate / block-entry / block-alt code that the encoder dropped is not a side effect *)
+             | None => match nth 1 (r_fields r) BADTOK with 3%N | 5%N => true | _ => false end
              end
           && refs_ok (spec_fin c) e ops (r_body r)                                     (* same index space as the encoded module *)
       end
